@@ -301,12 +301,6 @@ Definition run_lang (spec : bool) (head : sexp) (a : list sexp) : option sexp :=
         Some (SList (sym "ok" ::
                      map (fun c => if spec then enc_mbool (denote_filter sch ast c) "undef"
                                    else enc_mbool (run_filter sch ast c) "panic") cs))
-      else if sym_is "typecheck" head then
-        sch <-- dec_scheme s ;; ast <-- dec_lexpr FUEL e ;;
-        Some (SList [sym (if wt_filter sch ast then "accept" else "reject")])
-      else if sym_is "typecheck-value" head then
-        sch <-- dec_scheme s ;; ast <-- dec_iexpr FUEL e ;;
-        Some (SList [sym (match wt_value sch ast with Some _ => "accept" | None => "reject" end)])
       else if sym_is "exec-value" head then
         sch <-- dec_scheme s ;; ast <-- dec_iexpr FUEL e ;; cs <-- option_map_all dec_ctx ctxs ;;
         Some (SList (sym "ok" ::
@@ -470,6 +464,47 @@ Definition run_parse (spec : bool) (head : sexp) (a : list sexp) : option sexp :
       else if sym_is "parse-value" head then
         sch <-- dec_scheme s ;; st <-- dec_settings stg ;;
         Some (enc_parse enc_iexpr text (parse_value sch st text))
+      else None
+  | _ => None
+  end.
+
+(* (typecheck scheme #text ast) / (typecheck-value scheme #text iexpr): a candidate filter, given as the AST the
+   generator intended and the text it rendered.
+     model: what the parser model answers on the text: (accept <ast read>) | (reject)
+     spec : a well-typed intended AST must be accepted as itself; an ill-typed intended AST must not be accepted
+            as itself - if its text happens to read as a DIFFERENT filter (e.g. the ill-typed `ip in {2}` reads as
+            the well-typed address list {2.0.0.0}), the answer is the parser model's, whose results are proved
+            well-typed (C04_parser_accepts_only_well_typed). *)
+Definition sexp_same (a b : sexp) : bool := bytes_eqb (print_sexp a) (print_sexp b).
+
+Definition run_typecheck (spec : bool) (head : sexp) (a : list sexp) : option sexp :=
+  match a with
+  | [s; SBytes text; e] =>
+      let rej := SList [sym "reject"] in
+      if sym_is "typecheck" head then
+        sch <-- dec_scheme s ;; ast <-- dec_lexpr FUEL e ;;
+        let acc x := SList [sym "accept"; enc_lexpr x] in
+        let parsed := match parse_filter sch default_settings text with LOk a' _ => Some a' | _ => None end in
+        Some (if spec then
+                if wt_filter sch ast then acc ast
+                else match parsed with
+                     | Some a' => if sexp_same (enc_lexpr a') (enc_lexpr ast) then rej else acc a'
+                     | None => rej
+                     end
+              else match parsed with Some a' => acc a' | None => rej end)
+      else if sym_is "typecheck-value" head then
+        sch <-- dec_scheme s ;; ast <-- dec_iexpr FUEL e ;;
+        let acc x := SList [sym "accept"; enc_iexpr x] in
+        let parsed := match parse_value sch default_settings text with LOk a' _ => Some a' | _ => None end in
+        Some (if spec then
+                match wt_value sch ast with
+                | Some _ => acc ast
+                | None => match parsed with
+                          | Some a' => if sexp_same (enc_iexpr a') (enc_iexpr ast) then rej else acc a'
+                          | None => rej
+                          end
+                end
+              else match parsed with Some a' => acc a' | None => rej end)
       else None
   | _ => None
   end.
